@@ -51,6 +51,15 @@ pub fn neutralize_raw<'l>(arg: &mut Argument<'l>) -> Result<bool, SimplifyError>
 {
 	let mut changed = false;
 	
+	// a double negation is its operand
+	while matches!(arg, Argument::Negate(value) if matches!(**value, Argument::Negate(..)))
+	{
+		let Argument::Negate(value) = mem::replace(arg, Argument::Constant(Number::Integer(0))) else {unreachable!()};
+		let Argument::Negate(inner) = *value else {unreachable!()};
+		*arg = *inner;
+		changed = true;
+	}
+	
 	// the negation of a difference is the swapped difference: both `-(l - r)` and `0 - (l - r)` become `r - l`
 	// (before the passes below, which bring the swapped node into neutral form)
 	let swap = match arg
@@ -482,6 +491,12 @@ fn simplify_raw<'l>(arg: &mut Argument<'l>) -> Result<bool, SimplifyError>
 					let Argument::Subtract{lhs, rhs} = mem::replace(value.as_mut(), Argument::Constant(Number::Integer(0))) else {unreachable!()};
 					*arg = Argument::Subtract{lhs: rhs, rhs: lhs};
 					// the swapped node is new: bring it into neutral form like every other result
+					neutralize_raw(arg)?;
+					true
+				},
+				Argument::Negate(..) =>
+				{
+					// `neutralize_raw` removes the double negation
 					neutralize_raw(arg)?;
 					true
 				},
